@@ -66,3 +66,9 @@ func init() {
 	register("C16", ruleConcurrency)
 	register("C15", ruleConcurrency)
 }
+
+func init() {
+	register("C18", ruleBitList)
+	register("C17", ruleGFArith)
+	register("C15", ruleGFArith)
+}
